@@ -23,10 +23,13 @@ import (
 func main() {
 	zerolog.SetGlobalLevel(zerolog.Disabled)
 	o := c.NewOut("C12")
+	o.ShardSize = 100 // more, smaller case files: they are evaluated in parallel
 	o.DeclareSuite("cache", "From Verif Require Import C12.Model.", "case_cache", "run_cache")
 	o.DeclareSuite("sched", "From Verif Require Import C12.Model.", "case_cache", "run_cache")
 	o.DeclareSuite("caching", "From Verif Require Import C12.Model.", "case_caching", "run_caching")
 	o.DeclareSuite("throttle", "From Verif Require Import C12.Model.", "case_throttle", "run_throttle")
+	o.DeclareSuite("cconc", "From Verif Require Import C12.Model C12.ModelConc.", "case_cconc", "run_cconc")
+	o.DeclareSuite("tconc", "From Verif Require Import C12.Model C12.ModelConc.", "case_tconc", "run_tconc")
 	o.Rule("cache: histories of Set/Get/Has/Del/sleeper-fire on MemoryCache over 3 keys, clock moved to " +
 		"expiry-1/expiry/expiry+1 ns of stored entries, re-store at the expiry boundary with the old sleeper " +
 		"pending and fired before/after, sizes around the limit, every firing order of up to 3 sleepers; " +
@@ -67,6 +70,14 @@ func main() {
 			var k ThrottleCase
 			must(json.Unmarshal(r.Case, &k))
 			replayThrottle(o, &k)
+		case "cconc":
+			var k CConcCase
+			must(json.Unmarshal(r.Case, &k))
+			replayCConc(o, &k)
+		case "tconc":
+			var k TConcCase
+			must(json.Unmarshal(r.Case, &k))
+			replayTConc(o, &k)
 		default:
 			panic("replay file without a known suite: " + r.Suite)
 		}
@@ -77,6 +88,7 @@ func main() {
 
 	t0 := int64(1000000) * sec
 	rc, rs, rp, rt := o.Rng.Fork(1), o.Rng.Fork(2), o.Rng.Fork(3), o.Rng.Fork(4)
+	rcc, rtc := o.Rng.Fork(5), o.Rng.Fork(6)
 
 	genRestoreScenarios(o, t0)
 	genFireOrders(o, t0)
@@ -93,6 +105,10 @@ func main() {
 	for i := 0; i < o.Scale(600, 12000, 8000); i++ {
 		genThrottleHistory(o, rt, t0)
 	}
+	genJoinAmbiguity(o, t0)
+	genCConc(o, rcc, t0)
+	genTConcReadings(o, t0)
+	genTConcSchedules(o, rtc, t0)
 	reportSync(o)
 	o.Finish()
 }
